@@ -43,6 +43,7 @@ Record case := {
   k_workers : N; k_dry : bool; k_kept : N;
   k_stop : N;   (* 0 no stop op, 1 Stop returned nil, 2 Stop failed or hung *)
   k_leak : N;   (* goroutines alive after shutdown minus before Start *)
+  k_flood_lost : N; (* flood op (more decided traces than the outgoing queue holds, upstream stalled): spans of kept traces that never reached the transmission *)
   k_cfg : cfg; k_tables : list (list rule);
   k_ntr : N; k_flush : N; k_items : list item
 }.
